@@ -1,6 +1,6 @@
 (** Runner for Evidence histories:
       EV <n> <claims_1 .. claims_n (13 tokens each)> <op>*
-    ops: set:<i>  sign:<b><k>  vsign:<b><k>  dec:<ref>  ver:<k>
+    ops: set:<i>  mut:<i> (the attached claims object is overwritten in place, no validation)  sign:<b><k>  vsign:<b><k>  dec:<ref>  ver:<k>
       b: g good, f signer fails, e signer returns an empty signature,
          u signer reports an unknown algorithm, m signer reports an algorithm its key does not fit
       ref: t<i> token i | p<i>:<j> token i with the encoding of claims j as payload |
@@ -99,6 +99,8 @@ Fixpoint run_ev_ops (cc : ccfg) (w : wcfg) (pool : list claims) (toks : list tok
         | k :: args =>
             if bytes_eqb k (s2b "set") then
               match args with [i] => match parse_N i with Some n => option_map ESetClaims (nth_mod pool n) | None => None end | _ => None end
+            else if bytes_eqb k (s2b "mut") then
+              match args with [i] => match parse_N i with Some n => option_map EMutate (nth_mod pool n) | None => None end | _ => None end
             else if bytes_eqb k (s2b "sign") then
               match args with [s] => option_map (ESign false) (parse_signer s) | _ => None end
             else if bytes_eqb k (s2b "vsign") then
